@@ -394,7 +394,7 @@ function pl_inc(&$x) { $x++; }
 function pl_arr(&$x) { $x[] = 'A'; }
 `
 
-func fullPrelude() string { return "<?php\n" + classPrelude + xPrelude() + plPrelude + rsPrelude + hPrelude }
+func fullPrelude() string { return "<?php\n" + classPrelude + xPrelude() + plPrelude + rsPrelude + hPrelude + ePrelude }
 
 // ------------------------------------------------------------ cases
 
@@ -411,6 +411,11 @@ func (r *runner) plProbe() map[string]bool {
 	}
 	for _, rt := range pRoutes {
 		for _, f := range rt.Funcs {
+			need[f] = true
+		}
+	}
+	for _, o := range eOps {
+		for _, f := range o.Funcs {
 			need[f] = true
 		}
 	}
